@@ -108,9 +108,11 @@ fn doc_bytes(a: Fmt, i: usize, doc_size: usize, variant: usize) -> Vec<u8> {
             0 => format!("{{\"id\":\"{}\",\"pad\":\"{}\",\"n\":[1,2.5,true,null]}}\n", id, pad).into_bytes(),
             _ => format!("[\"{}\", \"{}\", {{\"k\": 1}}] ", id, pad).into_bytes(),
         },
-        Fmt::Yaml => match variant % 2 {
+        Fmt::Yaml => match variant % 3 {
             0 => format!("---\nid: \"{}\"\npad: {}\nn: [1, 2.5, true, null]\n", id, if pad.is_empty() { "\"\"".to_string() } else { pad }).into_bytes(),
-            _ => format!("---\n- \"{}\"\n- \"{}\"\n- k: 1\n...\n", id, pad).into_bytes(),
+            1 => format!("---\n- \"{}\"\n- \"{}\"\n- k: 1\n...\n", id, pad).into_bytes(),
+            // flow sequences; the stream starts with '[' and no marker (not valid JSON: plain scalars)
+            _ => format!("{}[item{}, {}, {{k: 1}}]\n", if i == 0 { "" } else { "---\n" }, id, if pad.is_empty() { "x".to_string() } else { pad }).into_bytes(),
         },
         Fmt::Msgpack => {
             let v = Val::Map(vec![(Val::s("id"), Val::Str(id)), (Val::s("pad"), Val::Str(pad)), (Val::s("n"), Val::Seq(vec![Val::Int(1), Val::Float(2.5), Val::Bool(true), Val::Null]))]);
@@ -292,8 +294,11 @@ pub fn run_stream(spec: &StreamSpec, variant: usize) -> Result<StreamResult, Str
 }
 
 pub fn check_stream(spec: &StreamSpec, rec: &mut Recorder) -> Result<(), String> {
-    let variant = spec.n % 2;
+    let variant = spec.n % 3;
     let r = run_stream(spec, variant)?;
+    if spec.a == Fmt::Yaml && variant == 2 {
+        rec.class("yaml_flow_first_document");
+    }
     if !r.verdict.is_ok() {
         return Err(format!("a valid {} stream of {} documents failed to translate: {}", spec.a.name(), spec.n, r.verdict.brief()));
     }
@@ -385,7 +390,7 @@ impl Check for C05 {
         vec![Unit::gen("streams", 16, tier.pick(40, 300)), Unit::enumerate("growth", 9)]
     }
     fn required_classes(&self, _tier: Tier) -> Vec<&'static str> {
-        vec!["memory_bound_checked", "detected", "explicit", "packet:one_document_per_read", "packet:several_documents_per_read", "packet:fraction_of_a_document", "pair:json->yaml", "pair:yaml->json", "pair:msgpack->msgpack", "pair:yaml->yaml", "doc:small", "doc:large", "growth_checked"]
+        vec!["memory_bound_checked", "detected", "explicit", "packet:one_document_per_read", "packet:several_documents_per_read", "packet:fraction_of_a_document", "pair:json->yaml", "pair:yaml->json", "pair:msgpack->msgpack", "pair:yaml->yaml", "doc:small", "doc:large", "growth_checked", "yaml_flow_first_document"]
     }
     fn run_unit(&self, unit: &Unit, shard: u32, seed: u64, tier: Tier, rec: &mut Recorder) {
         match unit.name {
